@@ -616,7 +616,7 @@ func (vlog *valueLog) open(db *DB) error {
 			flags = os.O_RDONLY
 		}
 		if err := lf.open(vlog.fpath(fid), flags,
-			2*vlog.opt.ValueLogFileSize); err != nil {
+			2*vlog.opt.ValueLogFileSize); err != nil && err != z.NewFile {
 			return y.Wrapf(err, "Open existing file: %q", lf.path)
 		}
 		// We shouldn't delete the maxFid file.
